@@ -494,7 +494,8 @@ type provCase struct {
 }
 
 func stepIsValid(s ProviderStep) bool {
-	if s.Kind != "resp" {
+	// (a body that trickles in byte by byte is as valid as one that arrives at once)
+	if s.Kind != "resp" && s.Kind != "slow-body" {
 		return false
 	}
 	code := s.Status
@@ -598,6 +599,9 @@ func checkC18Providers(t *testing.T, c *provCase, rec *Recorder) []Diff {
 				firstCall[call.URL] = first
 			}
 			done := call.At + time.Duration(st.DelayMs)*time.Millisecond
+			if st.Kind == "resp" && st.Split > 0 && st.Split < len(st.Body) {
+				done += time.Duration(st.PieceMs) * time.Millisecond
+			}
 			if st.Kind == "slow-body" {
 				done = call.At + time.Duration(len(st.Body))*time.Duration(st.DelayMs)*time.Millisecond
 			}
@@ -662,7 +666,7 @@ func checkC18Providers(t *testing.T, c *provCase, rec *Recorder) []Diff {
 }
 
 func TestC18Providers(t *testing.T) {
-	rec := NewRecorder("C18", "C18Providers", "rapid: per-provider response scripts (status classes 2xx/3xx/4xx/5xx, valid/invalid/whitespace-padded bodies incl. full-notation IPv6 answers, transport errors, stalls, slow answers) over a scripted RoundTripper on the virtual clock; oracle over the request log: providers are contacted in list order without skipping, no request after the first valid address, no further request to a provider after a client error or an invalid body, the returned address is the first valid one; retry counts are not asserted (randomised backoff); non-trivial = provider 1 fails finally and a later one succeeds")
+	rec := NewRecorder("C18", "C18Providers", "rapid: per-provider response scripts (status classes 2xx/3xx/4xx/5xx, valid/invalid/whitespace-padded bodies incl. full-notation IPv6 answers, transport errors, stalls, slow answers, answers that arrive in two pieces or byte by byte) over a scripted RoundTripper on the virtual clock; oracle over the request log: providers are contacted in list order without skipping, no request after the first valid address, no further request to a provider after a client error or an invalid body, the returned address is the first valid one; retry counts are not asserted (randomised backoff); non-trivial = provider 1 fails finally and a later one succeeds")
 	RunProp(t, rec, func(rt *rapid.T) *provCase {
 		c := &provCase{Providers: map[string][]ProviderStep{}}
 		if rapid.IntRange(0, 3).Draw(rt, "unbiased") == 0 {
@@ -684,6 +688,12 @@ func TestC18Providers(t *testing.T) {
 				full6 := fmt.Sprintf("2001:0db8:85a3:0000:0000:8a2e:0370:73%02x", 0x30+i)
 				body := oneOf(rt, fmt.Sprintf("p%d_vbody", i), fmt.Sprintf("203.0.113.%d", 10+i), fmt.Sprintf("203.0.113.%d", 10+i), full6, "\r\n"+full6+"\r\n", "  \t  "+full6+" \n", "\n\n\n\n\n\n"+full6, fmt.Sprintf("2001:db8::%x\n", 10+i), fmt.Sprintf("   255.255.255.%d   \r\n", 200+i))
 				steps = []ProviderStep{{Kind: "resp", Status: 200, Body: body, DelayMs: oneOf(rt, fmt.Sprintf("p%d_vdelay", i), 0, 300, 1200)}}
+				// the answer may arrive in two pieces (chunked, or spanning two segments); the first piece may itself
+				// look like an address
+				if oneOf(rt, fmt.Sprintf("p%d_pieces", i), false, false, true) {
+					steps[0].Split = rapid.IntRange(1, len(body)-1).Draw(rt, fmt.Sprintf("p%d_split", i))
+					steps[0].PieceMs = oneOf(rt, fmt.Sprintf("p%d_piece_ms", i), 0, 1, 40)
+				}
 			case "stall":
 				steps = []ProviderStep{{Kind: oneOf(rt, fmt.Sprintf("p%d_stall", i), "hang-before", "hang-after-headers")}}
 			default:
